@@ -11,8 +11,10 @@ Local Open Scope Z_scope.
 Inductive revent :=
 | RPermit                      (* paced: let the pending decoder call return *)
 | RCb (chunks : list Z)        (* a device callback: on_start_processing, then process per internal chunk *)
-| RCbPaused                    (* a callback while the parent track is paused: on_start_processing only *)
+| RCbPaused (n : Z)            (* a callback of n frames while the parent track is paused: on_start_processing only *)
 | RG (e : event)               (* a gameplay-thread operation / observation *)
+| RRejectEarly                 (* only as the first event: the full track rejected the sound before the new thread's first test *)
+| RFree                        (* the harness stops pacing: from now on the thread runs freely *)
 | RObsF.                       (* free mode: 0 asleep or blocked, 1 thread ended, 2 spinning, 3 panicked, 4 never spawned *)
 
 (** configuration with integers only: packets, seek granularity, failing decode calls (listed / from),
@@ -40,8 +42,8 @@ Fixpoint d_auto (free : bool) (cfg : config) (fuel : nat) (s : state) : state :=
   match fuel with
   | O => s
   | S fuel' =>
-      if running s && (free || at_top s) && ((sh_state s =? 6) || negb (at_top s && ring_full cfg s))
-         && (d_spin (st_d s) <? spin_limit)%nat
+      if running s && (free || at_top s)
+         && ((sh_state s =? 6) || abandoned s || (negb (at_top s && ring_full cfg s) && (d_spin (st_d s) <? spin_limit)%nat))
       then d_auto free cfg fuel' (d_step cfg s) else s
   end.
 Definition auto_fuel (cfg : config) : nat := (2 * Z.to_nat (cf_cap cfg) + 4 * length (cf_packets cfg) + 64)%nat.
@@ -49,28 +51,42 @@ Definition settle (free : bool) (cfg : config) (s : state) : state := d_auto fre
 
 Fixpoint frames (n : nat) (s : state) : state :=
   match n with O => s | S n' => frames n' (a_frame s) end.
-Definition chunk_step (s : state) (n : Z) : state := let s1 := a_proc s (Z.to_nat n) in frames (a_rem s1) s1.
+Definition on_track (s : state) : bool := match a_where s with OnTrack => true | _ => false end.
+(** the device output is recorded for every callback; a sound that is not (or no longer) processed
+    contributes silence *)
+Definition silent (s : state) (n : Z) : state := set_obs s (mones (Z.to_nat n) ++ l_obs s).
+Definition chunk_step (s : state) (n : Z) : state :=
+  if on_track s then let s1 := a_proc s (Z.to_nat n) in frames (a_rem s1) s1 else silent s n.
 
-Definition rstep (free : bool) (cfg : config) (s : state) (e : revent) : state :=
+Definition rstep (cfg : config) (fs : bool * state) (e : revent) : bool * state :=
+  let '(free, s) := fs in
+  let free := match e with RFree => true | _ => free end in
   let s' :=
     match e with
     | RPermit => if at_top s then s else d_step cfg s
     | RCb chunks => fold_left chunk_step chunks (a_start s)
-    | RCbPaused => a_start s
+    | RCbPaused n => silent (a_start s) n
     | RG e => g_step s e
+    | RFree => s
+    | RRejectEarly => s
     | RObsF =>
         set_obs s ((match d_status (st_d s) with
                     | DRunning => if (spin_limit <=? d_spin (st_d s))%nat then 2 else 0
                     | DEnded => 1 | DPanicked => 3 | DNever => 4
                     end) :: l_obs s)
     end in
-  settle free cfg s'.
+  (free, settle free cfg s').
 
 Definition run (c : case) : list Z :=
   match c with
   | CRun free rc evs =>
       let cfg := mk_cfg rc in
-      let s0 := settle free cfg (init cfg) in
-      let s := fold_left (rstep free cfg) evs s0 in
+      (* [play] on a full track drops the sound right after spawning the thread: the thread's first
+         [is_abandoned] test may come before or after that; the harness reports which it saw *)
+      let s0 := match evs with
+                | RRejectEarly :: _ => settle free cfg (fold_left g_step reject (init cfg))
+                | _ => settle free cfg (init cfg)
+                end in
+      let s := snd (fold_left (rstep cfg) evs (free, s0)) in
       (match g_play_err s with Some e => e | None => -1 end) :: rev (l_obs s)
   end.
